@@ -191,4 +191,74 @@ theorem get32_eq_spec' (b : List Byte) : uint32Get b = specGet 32 4 b := by
   · rw [(short32_refused' b 0 (by omega)).2]
     simp only [specGet]; rw [if_neg h]
 
+/-! cross-width and arithmetic readings of the layout -/
+
+theorem specByte_setWidth32 (v : BitVec 64) (i : Nat) (h : i < 4) :
+    specByte (v.setWidth 32) i = specByte v i := by
+  unfold specByte
+  ext j hj
+  simp
+  grind
+
+theorem get32_of_put64' (b : List Byte) (v : BitVec 64) (h : 8 ≤ b.length) :
+    ∃ b', uint64Put b v = .ok b' ∧ uint32Get b' = .ok (v.setWidth 32) := by
+  obtain ⟨b0, b1, b2, b3, b4, b5, b6, b7, rest, rfl⟩ := exists_eight b h
+  refine ⟨_, put64_cons .., ?_⟩
+  rw [get32_cons]
+  rw [← specByte_setWidth32 v 0 (by omega), ← specByte_setWidth32 v 1 (by omega),
+      ← specByte_setWidth32 v 2 (by omega), ← specByte_setWidth32 v 3 (by omega), bytes32_join]
+
+theorem specByte_high_zero (v : BitVec 64) (hv : v.toNat < 2 ^ 32) (i : Nat) (h : 4 ≤ i) :
+    specByte v i = 0 := by
+  unfold specByte
+  ext j hj
+  simp
+  rw [BitVec.getLsbD]
+  apply Nat.testBit_lt_two_pow
+  exact Nat.lt_of_lt_of_le hv (Nat.pow_le_pow_right (by omega) (by omega))
+
+theorem put64_small' (b : List Byte) (v : BitVec 64) (h : 8 ≤ b.length) (hv : v.toNat < 2 ^ 32) :
+    ∃ b', uint64Put b v = .ok b' ∧ ∀ i, 4 ≤ i → i < 8 → b'[i]? = some 0 := by
+  obtain ⟨b', hp, _, hl, _⟩ := put64_layout' b v h
+  exact ⟨b', hp, fun i h4 h8 => by rw [hl i h8, specByte_high_zero v hv i h4]⟩
+
+/-- Little-endian as arithmetic: the value read is Σ byte_i · 256^i. -/
+theorem get64_toNat (b0 b1 b2 b3 b4 b5 b6 b7 : Byte) (rest : List Byte) :
+    ∃ v, uint64Get (b0 :: b1 :: b2 :: b3 :: b4 :: b5 :: b6 :: b7 :: rest) = .ok v ∧
+      v.toNat = b0.toNat + 256 * (b1.toNat + 256 * (b2.toNat + 256 * (b3.toNat + 256 * (b4.toNat +
+        256 * (b5.toNat + 256 * (b6.toNat + 256 * b7.toNat)))))) := by
+  refine ⟨_, get64_cons .., ?_⟩
+  have : (b0.setWidth 64 ||| (b1.setWidth 64 <<< 8) ||| (b2.setWidth 64 <<< 16) |||
+           (b3.setWidth 64 <<< 24) ||| (b4.setWidth 64 <<< 32) ||| (b5.setWidth 64 <<< 40) |||
+           (b6.setWidth 64 <<< 48) ||| (b7.setWidth 64 <<< 56)) =
+         (b7 ++ b6 ++ b5 ++ b4 ++ b3 ++ b2 ++ b1 ++ b0).cast (by rfl) := by
+    ext i hi
+    simp
+    grind
+  rw [this]
+  have hb (x : Nat) (y : Byte) : x <<< 8 ||| y.toNat = 256 * x + y.toNat := by
+    rw [← Nat.shiftLeft_add_eq_or_of_lt y.isLt, Nat.shiftLeft_eq]; omega
+  simp only [BitVec.toNat_cast, BitVec.toNat_append, hb]
+  omega
+
+theorem get32_toNat (b0 b1 b2 b3 : Byte) (rest : List Byte) :
+    ∃ v, uint32Get (b0 :: b1 :: b2 :: b3 :: rest) = .ok v ∧
+      v.toNat = b0.toNat + 256 * (b1.toNat + 256 * (b2.toNat + 256 * b3.toNat)) := by
+  refine ⟨_, get32_cons .., ?_⟩
+  have : (b0.setWidth 32 ||| (b1.setWidth 32 <<< 8) ||| (b2.setWidth 32 <<< 16) |||
+           (b3.setWidth 32 <<< 24)) = (b3 ++ b2 ++ b1 ++ b0).cast (by rfl) := by
+    ext i hi
+    simp
+    grind
+  rw [this]
+  have hb (x : Nat) (y : Byte) : x <<< 8 ||| y.toNat = 256 * x + y.toNat := by
+    rw [← Nat.shiftLeft_add_eq_or_of_lt y.isLt, Nat.shiftLeft_eq]; omega
+  simp only [BitVec.toNat_cast, BitVec.toNat_append, hb]
+  omega
+
+/-- The i-th byte written is digit i of the value in base 256. -/
+theorem specByte_toNat {w : Nat} (v : BitVec w) (i : Nat) :
+    (specByte v i).toNat = v.toNat / 256 ^ i % 256 := by
+  simp [specByte, BitVec.toNat_setWidth, BitVec.toNat_ushiftRight, Nat.shiftRight_eq_div_pow, Nat.pow_mul]
+
 end GooseVerif.Model.Prims
